@@ -1504,6 +1504,51 @@ func c17Round4(c *core.Ctx) {
 				sites = append(sites, site{core.FuncName(fn), c.Pos(in), gated})
 			})
 		}
+		// the defaulting may be a helper shared by the handlers (requestedFaceID(params,
+		// inFace)): one that returns a parameter on one path and *FaceId on another; every
+		// handler calling it is a site
+		for _, fn := range p.FuncsIn(pkg) {
+			if fn.Parent() != nil || strings.HasSuffix(p.File(fn.Pos()), "_test.go") || fn.Signature.Results().Len() != 1 {
+				continue
+			}
+			var retPar, retFace []*ssa.Return
+			core.Instrs(fn, func(in ssa.Instruction) {
+				r, ok := in.(*ssa.Return)
+				if !ok || len(r.Results) != 1 {
+					return
+				}
+				v := core.StripConv(r.Results[0])
+				if _, isPar := core.Strip(v).(*ssa.Parameter); isPar {
+					retPar = append(retPar, r)
+				}
+				if isDerefOfField(v, "FaceId") {
+					retFace = append(retFace, r)
+				}
+			})
+			if len(retPar) == 0 || len(retFace) == 0 {
+				continue
+			}
+			nz := &core.Atom{Name: "*FaceId != 0", Match: func(cond ssa.Value) (int, int) {
+				op, x, y, okC := core.Cmp(cond)
+				if !okC || (op != token.EQL && op != token.NEQ) {
+					return 0, 0
+				}
+				k, isC := core.ConstInt(y)
+				if !isC || k != 0 || !isDerefOfField(core.StripConv(x), "FaceId") {
+					return 0, 0
+				}
+				return core.Iff(op == token.NEQ)
+			}}
+			var eff []ssa.Instruction
+			for _, r := range retFace {
+				eff = append(eff, r)
+			}
+			g := core.Gate(fn, eff, pos(nz))
+			gated := g.OK && g.PassEdges > 0
+			for _, cs := range p.Callers(fn) {
+				sites = append(sites, site{core.FuncName(cs.Parent()) + " (through " + fn.Name() + ")", c.Pos(cs), gated})
+			}
+		}
 		nG := 0
 		for _, s := range sites {
 			if s.gated {
